@@ -4,9 +4,17 @@
 // This file contains comments only; it is compiled only with the build tag "verif" and adds no code.
 package geomhelp
 
-// type conversion of the rings ([][][2]float64 -> geom.Polygon), key by key
+// type conversion of the rings ([][][2]float64 -> geom.Polygon), polygon by polygon and key by key
+//@ func FloatPolygonsToGeomPolygons
+//@   loop i as n
+//@     invariant 0 - 1 <= n && n < len(floaters) && len(geoms) == len(floaters)
+//@     invariant forall(k, 0, n + 1, geoms[k] == floaters[k])
+//@   ensures[C05,C08,C03] len(result) == len(floaters) && forall(k, 0, len(floaters), result[k] == floaters[k])
 //@ func FloatPolygonsToGeomPolygonsForAllKeys
-//@   trusted "converts element types only; same keys, same number of polygons per key; no panic, no effect"
-//@   ensures !isNil(result)
-//@   ensures forall(k Int, hasKey(result, k) == hasKey(floatersPerKey, k))
-//@   ensures forall(k Int, hasKey(floatersPerKey, k) ==> len(result[k]) == len(floatersPerKey[k]))
+//@   loop k as it
+//@     invariant !isNil(geomsPerKey)
+//@     invariant forall(q Int, hasKey(geomsPerKey, q) ==> hasKey(floatersPerKey, q) && len(geomsPerKey[q]) == len(floatersPerKey[q]), trigger(hasKey(geomsPerKey, q)))
+//@     invariant forall(q Int, seen_it[q] ==> hasKey(geomsPerKey, q), trigger(seen_it[q]))
+//@   ensures[C05,C08,C03] !isNil(result)
+//@   ensures[C05,C08,C03] forall(k Int, hasKey(result, k) == hasKey(floatersPerKey, k))
+//@   ensures[C05,C08,C03] forall(k Int, hasKey(floatersPerKey, k) ==> len(result[k]) == len(floatersPerKey[k]))
